@@ -44,7 +44,8 @@ structure Leniency where
   /-- `String` / `ID` / enum positions accept a json.Number (a number of reflect kind String) -/
   jsonNumberAsString : Bool := false
   /-- a list position may hold a non-list value that fits the innermost named type
-      (for supplied values: the single-value-to-list coercion; for results: R14d) -/
+      (for supplied values: the single-value-to-list coercion; for results: R14d, repaired — the
+      theorems about results use `Leniency.afterR14d`) -/
   flatNested : Bool := false
   deriving Repr, DecidableEq
 
@@ -53,6 +54,9 @@ def Leniency.coercion : Leniency := { flatNested := true }
 def Leniency.legacy : Leniency :=
   { enumFold := true, typenameKey := true, numericStrings := true, fractionalInt := true,
     jsonNumberAsString := true, flatNested := true }
+/-- the five leniencies that remain for RESULTS once R14d is repaired (coerced list items are
+    stored back): every list position of a result holds a list -/
+def Leniency.afterR14d : Leniency := { Leniency.legacy with flatNested := false }
 
 
 def intOK (L : Leniency) : GoVal → Bool
